@@ -1,2 +1,173 @@
+//! C17 — CL03 proofs do not hand the verifier the openings they are meant to hide.
+//! Attacker-side recomputation monitor: plays the recipient of the serialized proof.
+
+use crate::bundles::*;
+use crate::clutil::*;
 use crate::common::*;
-pub fn scenarios(_ctx: &Ctx) -> Vec<Scenario> { vec![] }
+use rug::Integer;
+use serde_json::json;
+use std::collections::HashMap;
+
+fn attack(ctx: &Ctx, b: &Bundle) {
+    ctx.distinct(&b.label);
+    let n = &b.n_mod;
+    let ls = leaves(&b.json);
+    ctx.count("integer_leaves_examined", ls.len() as u64);
+    // candidate commitment values: every leaf that is a residue mod N, plus the public inputs
+    let mut values: HashMap<Integer, String> = HashMap::new();
+    for (p, v) in &ls {
+        if v > &Integer::from(1) && v < n {
+            values.entry(v.clone()).or_insert_with(|| path_class(p));
+        }
+    }
+    for (nm, v) in &b.public_values {
+        values.entry(v.clone()).or_insert_with(|| format!("public:{nm}"));
+    }
+    // rho ranges over ALL integer leaves (not only the fields called `randomness`)
+    let mut rhos: HashMap<Integer, String> = HashMap::new();
+    for (p, v) in &ls {
+        if *v != 0 {
+            rhos.entry(v.clone()).or_insert_with(|| path_class(p));
+        }
+    }
+    ctx.count("candidate_values", values.len() as u64);
+    ctx.count("candidate_randomness_leaves", rhos.len() as u64);
+    // secrets and a decoy per secret
+    let mut found: Vec<(String, String, String, String)> = vec![]; // (value field, rho field, base pair, secret kind)
+    let mut h_pows: HashMap<(usize, Integer), Integer> = HashMap::new();
+    let hs: Vec<Integer> = {
+        let mut v: Vec<Integer> = vec![];
+        for (_, _, h) in &b.base_pairs {
+            if !v.contains(h) {
+                v.push(h.clone());
+            }
+        }
+        v
+    };
+    for (hi, h) in hs.iter().enumerate() {
+        for rho in rhos.keys() {
+            h_pows.insert((hi, rho.clone()), powm(h, rho, n));
+        }
+    }
+    ctx.count("modular_exponentiations", (hs.len() * rhos.len()) as u64);
+    let test = |secret_kind: &str, x: &Integer, decoy: bool, found: &mut Vec<(String, String, String, String)>| -> bool {
+        let mut hit = false;
+        for (bl, g, h) in &b.base_pairs {
+            let hi = hs.iter().position(|z| z == h).unwrap();
+            let gx = powm(g, x, n);
+            for (rho, rf) in &rhos {
+                let cand = mulm(&gx, &h_pows[&(hi, rho.clone())], n);
+                if let Some(vf) = values.get(&cand) {
+                    hit = true;
+                    if !decoy {
+                        found.push((vf.clone(), rf.clone(), bl.clone(), secret_kind.to_string()));
+                    }
+                }
+            }
+        }
+        hit
+    };
+    for (kind, x) in &b.secrets {
+        if kind == "signature-v" {
+            continue;
+        }
+        let truth = test(kind, x, false, &mut found);
+        let decoy = test(kind, &Integer::from(x ^ Integer::from(0x5a5a5au32)), true, &mut found);
+        ctx.count("dictionary_attacks_run", 1);
+        if truth && !decoy {
+            ctx.count("dictionary_attacks_successful", 1);
+        }
+    }
+    // v: value * g^(-randomness) == v  (Cv = v * g_0^w)
+    if let Some((_, v)) = b.secrets.iter().find(|(k, _)| k == "signature-v") {
+        for (bl, g, _) in &b.base_pairs {
+            for (rho, rf) in &rhos {
+                let ginv = powm(g, &Integer::from(-rho), n);
+                for (val, vf) in &values {
+                    if &mulm(val, &ginv, n) == v {
+                        found.push((vf.clone(), rf.clone(), bl.clone(), "signature-v".into()));
+                    }
+                }
+                ctx.count("modular_exponentiations", 1);
+            }
+            // only the first g of each family can blind v in this library; the others are tried too
+            let _ = bl;
+        }
+    }
+    // whole hidden vector confirmed from a multi-base commitment: value == prod g_i^{m_i} * h^rho
+    if b.hidden.len() >= 2 || b.kind == "spok" {
+        let families: Vec<(&str, Vec<&(String, Integer, Integer)>)> = vec![
+            ("g", b.base_pairs.iter().filter(|x| x.0.starts_with("(g_")).collect()),
+            ("a", b.base_pairs.iter().filter(|x| x.0.starts_with("(a_")).collect()),
+        ];
+        for (_fam, pairs) in families {
+            if pairs.is_empty() {
+                continue;
+            }
+            let mut prod = Integer::from(1);
+            for (i, m) in &b.hidden {
+                prod = mulm(&prod, &powm(&pairs[*i].1, m, n), n);
+            }
+            let hi = hs.iter().position(|z| z == &pairs[0].2).unwrap();
+            for (rho, rf) in &rhos {
+                let cand = mulm(&prod, &h_pows[&(hi, rho.clone())], n);
+                if let Some(vf) = values.get(&cand) {
+                    if b.hidden.len() >= 2 {
+                        found.push((vf.clone(), rf.clone(), "multi-base".into(), "hidden-attribute-vector".into()));
+                    }
+                }
+            }
+        }
+    }
+    // complete openings carried inside the proof: value == g^{leaf1} * h^{leaf2} for two leaves of the proof
+    for (bl, g, h) in &b.base_pairs {
+        let hi = hs.iter().position(|z| z == h).unwrap();
+        for (x, xf) in &rhos {
+            if x.significant_bits() > 4200 {
+                continue;
+            }
+            let gx = powm(g, x, n);
+            ctx.count("modular_exponentiations", 1);
+            for (rho, rf) in &rhos {
+                let cand = mulm(&gx, &h_pows[&(hi, rho.clone())], n);
+                if let Some(vf) = values.get(&cand) {
+                    found.push((vf.clone(), format!("{}+{}", xf, rf), bl.clone(), "opening-entirely-inside-proof".into()));
+                }
+            }
+        }
+    }
+    found.sort();
+    found.dedup();
+    for (vf, rf, bl, kind) in &found {
+        let _ = bl;
+        ctx.violation(
+            &format!("C17:{}:pair=({},{})~{}", b.kind, vf, rf, kind),
+            json!({"proof":b.label,"value_field":vf,"randomness_field":rf,"base_pair":bl,"secret":kind}),
+        );
+    }
+    ctx.sample(json!({"proof":b.label,"integer_leaves":ls.len(),"candidate_values":values.len(),"candidate_rhos":rhos.len(),"secrets_tested":b.secrets.iter().map(|s| s.0.clone()).collect::<Vec<_>>(),"openings_found":found.len()}));
+}
+
+fn run<C: Cs>(ctx: &Ctx, idx: u64, nmax: usize) {
+    let mut r = ctx.rng("c17", idx);
+    let Some(st) = Setup::<C>::new(ctx, nmax) else {
+        ctx.inconclusive("C17: key generation panicked (C18's business)");
+        return;
+    };
+    let bundles = all_bundles::<C>(ctx, &st, &mut r, nmax);
+    ctx.count("proofs_attacked", bundles.len() as u64);
+    par_for_each(&bundles, 12, |b| attack(ctx, b));
+}
+
+pub fn scenarios(ctx: &Ctx) -> Vec<Scenario> {
+    use zkryptium::cl03::ciphersuites::{CL1024Sha256, CL2048Sha256};
+    let mut v = Vec::new();
+    if !ctx.quick() {
+        v.push(scenario("CL2048", move |c| run::<CL2048Sha256>(c, 200, 2)));
+    }
+    let nmax = ctx.t(3usize, 4usize);
+    for i in 0..ctx.t(1u64, 3u64) {
+        v.push(scenario("CL1024", move |c| run::<CL1024Sha256>(c, i, nmax)));
+    }
+    v
+}
